@@ -72,13 +72,14 @@ theorem constNames_fundOf : ∀ (src reg : Val), UsedQubits.fundOf src = some re
   | _ => intro reg h; simp [UsedQubits.fundOf] at h
 
 /-- fill-in of a good reference does not change what it denotes, under any environment that overrides no let inside it -/
-theorem mapVal_sem_env (ρ : Env) {v v' : Val} (hg : GoodRef v) (ha : QAvoids ρ v) (h : mapVal v = .ok v') (b : Bind) :
+theorem mapVal_sem_env (ρ : Env) {mps : List String} {v v' : Val} (hg : GoodRef v) (ha : QAvoids ρ v) (h : mapVal mps v = .ok v')
+    (b : Bind) :
     evalArg ρ b v' = evalArg ρ b v ∧ evalNum ρ b v' = evalNum ρ b v := by
   cases v with
   | qubit n src idx =>
     have hs := mapVal_sem hg h b
     obtain ⟨hv, i, hi⟩ := hg
-    obtain ⟨nm, reg, k, rfl, hV, hR⟩ := C06_mapVal_qubit h
+    obtain ⟨nm, reg, k, rfl, hV, hR, _⟩ := C06_mapVal_qubit h
     have hf := resolveQubitV_fund hV hv
     have ha' : Avoids ρ (.qubit nm reg (.int k)) := by
       intro m hm
@@ -113,7 +114,8 @@ theorem fillInMap_meaning (ρ : Env) (c c' : Circuit) (hw : FillIn.WellFormed c)
   simp only [BlocksOK] at hB
   simp only [AllVals] at hb
   exact Rebuilt_meaning (P := MapOK ρ) (fun v v' b hg hv => mapVal_sem_env ρ hg.1 hg.2 hv b)
-    (fun v v' b _ hv => by cases hv; exact ⟨rfl, fun hn => hn⟩) hr hbs hB.2.2 hb.2
+    (fun v v' b _ hv => by cases hv; exact ⟨rfl, fun hn => hn⟩)
+    (fun _ v v' b hg hv => mapVal_sem_env ρ hg.1 hg.2 hv b) hr hbs hB.2.2 hb.2
     (fun m hmem => ⟨hw.macros m hmem, hm m hmem⟩)
 
 end Jaqal.Passes
